@@ -544,7 +544,10 @@ impl CompactionStrategy for Strategy {
         };
 
         debug_assert!(level.is_disjoint(), "level should be disjoint");
-        debug_assert!(next_level.is_disjoint(), "next level should be disjoint");
+        debug_assert!(
+            next_level.is_empty() || next_level.is_disjoint(),
+            "next level should be empty or disjoint",
+        );
 
         #[expect(
             clippy::expect_used,
